@@ -16,20 +16,24 @@ pub enum Fmt { NTriples, NQuads, Turtle, N3, RdfXml }
 #[derive(Serialize, Deserialize, Clone, Debug)]
 pub struct Doc { pub triples: Vec<(LT, u32, LT)>, pub seed: u64 }
 #[derive(Serialize, Deserialize, Clone, Debug)]
-pub struct LoadCase { pub hash_seed: u64, pub pool: usize, pub rayon_seed: u64, pub cpus: i64, pub shuttle_seed: u64, pub prior: Vec<(LT, u32, LT, Option<u32>)>, pub prior_terms: u32, pub doc: Doc, pub formats: Vec<Fmt>, pub twice: bool, pub comments: bool, #[serde(default)] pub n3_literals: bool }
+pub struct LoadCase { pub hash_seed: u64, pub pool: usize, pub rayon_seed: u64, pub cpus: i64, pub shuttle_seed: u64, pub prior: Vec<(LT, u32, LT, Option<u32>)>, pub prior_terms: u32, pub doc: Doc, pub formats: Vec<Fmt>, pub twice: bool, pub comments: bool, #[serde(default)] pub n3_literals: bool, #[serde(default)] pub nq_graphs: bool }
 pub struct C13;
 
-fn canon(t: &LT) -> String { match t { LT::Iri(n) => format!("http://e/n{}", n), LT::Lit(n) => format!("v{}", n), LT::EscLit(n) => format!("a\"b\\c{}", n), LT::Bn(n) => format!("_:b{}", n) } }
-fn nt(t: &LT) -> String { match t { LT::Iri(n) => format!("<http://e/n{}>", n), LT::Lit(n) => format!("\"v{}\"", n), LT::EscLit(n) => format!("\"a\\\"b\\\\c{}\"", n), LT::Bn(n) => format!("_:b{}", n) } }
+/// escaped-literal families: backslash and quote in the middle, value ending in a backslash, value ending in a quote
+fn canon(t: &LT) -> String { match t { LT::Iri(n) => format!("http://e/n{}", n), LT::Lit(n) => format!("v{}", n), LT::EscLit(n) => match n % 3 { 0 => format!("a\"b\\c{}", n), 1 => format!("dir{}\\", n), _ => format!("say{}\"", n) }, LT::Bn(n) => format!("_:b{}", n) } }
+fn nt(t: &LT) -> String { match t { LT::Iri(n) => format!("<http://e/n{}>", n), LT::Lit(n) => format!("\"v{}\"", n), LT::EscLit(n) => match n % 3 { 0 => format!("\"a\\\"b\\\\c{}\"", n), 1 => format!("\"dir{}\\\\\"", n), _ => format!("\"say{}\\\"\"", n) }, LT::Bn(n) => format!("_:b{}", n) } }
 fn pred(p: u32) -> String { format!("http://e/p{}", p) }
 
+/// N-Quads only: statement i of the document may carry a graph name (a pure function of the render seed and i)
+pub fn nq_graph(doc: &Doc, i: usize, enabled: bool) -> Option<u32> { if !enabled { return None; } let h = kolibrie_verif_rt::rng::mix(doc.seed, i as u64); if h % 4 == 0 { Some((h >> 8) as u32 % 3) } else { None } }
 /// render the abstract document; blank / comment lines fall on PRNG-chosen positions so chunk boundaries hit every kind of line
-pub fn render(doc: &Doc, fmt: &Fmt, comments: bool) -> String {
+pub fn render(doc: &Doc, fmt: &Fmt, comments: bool, nq_graphs: bool) -> String {
     let mut r = Rng::new(doc.seed);
     let mut out = String::new();
     let filler = |r: &mut Rng, out: &mut String| { if comments && r.chance(1, 7) { if r.chance(1, 2) { out.push('\n'); } else { out.push_str("# a comment line\n"); } } };
     match fmt {
-        Fmt::NTriples | Fmt::NQuads => { for (s, p, o) in &doc.triples { filler(&mut r, &mut out); out.push_str(&format!("{} <{}> {} .\n", nt(s), pred(*p), nt(o))); } }
+        Fmt::NTriples => { for (s, p, o) in &doc.triples { filler(&mut r, &mut out); out.push_str(&format!("{} <{}> {} .\n", nt(s), pred(*p), nt(o))); } }
+        Fmt::NQuads => { for (i, (s, p, o)) in doc.triples.iter().enumerate() { filler(&mut r, &mut out); match nq_graph(doc, i, nq_graphs) { Some(g) => out.push_str(&format!("{} <{}> {} <http://e/g{}> .\n", nt(s), pred(*p), nt(o), g)), None => out.push_str(&format!("{} <{}> {} .\n", nt(s), pred(*p), nt(o))) } } }
         Fmt::Turtle => {
             out.push_str("@prefix e: <http://e/> .\n");
             for (s, p, o) in &doc.triples {
@@ -63,6 +67,7 @@ pub fn render(doc: &Doc, fmt: &Fmt, comments: bool) -> String {
     out
 }
 pub fn expected(doc: &Doc) -> BTreeSet<Q> { doc.triples.iter().map(|(s, p, o)| (canon(s), pred(*p), canon(o), None)).collect() }
+pub fn expected_nq(doc: &Doc, nq_graphs: bool) -> BTreeSet<Q> { doc.triples.iter().enumerate().map(|(i, (s, p, o))| (canon(s), pred(*p), canon(o), nq_graph(doc, i, nq_graphs).map(|g| format!("http://e/g{}", g)))).collect() }
 pub fn lexical(db: &SparqlDatabase) -> Result<(BTreeSet<Q>, BTreeSet<String>), String> {
     let d = |id: u32| db.decode_any(id).ok_or_else(|| format!("stored id {} does not decode", id));
     let mut qs = BTreeSet::new();
@@ -116,7 +121,7 @@ impl Prop for C13 {
         let all = [Fmt::NTriples, Fmt::NQuads, Fmt::Turtle, Fmt::N3, Fmt::RdfXml];
         let formats: Vec<Fmt> = if big { vec![r.pick(&all).clone(), r.pick(&all).clone()] } else { all.to_vec() };
         LoadCase { hash_seed: Rng::sub(seed, "hash").next(), pool: *cfg.pick(&[1, 2, 3, 4, 8, 16]), rayon_seed: Rng::sub(seed, "rayon").next(), cpus: 1 + cfg.below(16) as i64, shuttle_seed: Rng::sub(seed, "shuttle").next(),
-            prior, prior_terms: if prior_kind == 2 { r.below(40) as u32 } else { 0 }, doc: Doc { triples, seed: r.next() }, formats, twice: cfg.chance(1, 4), comments: cfg.chance(1, 2), n3_literals: cfg.chance(1, 10) }
+            prior, prior_terms: if prior_kind == 2 { r.below(40) as u32 } else { 0 }, doc: Doc { triples, seed: r.next() }, formats, twice: cfg.chance(1, 4), comments: cfg.chance(1, 2), n3_literals: cfg.chance(1, 10), nq_graphs: cfg.chance(1, 2) }
     }
     fn exec(&self, c: &LoadCase, ctx: &mut Ctx) -> Option<Violation> {
         rayon::sim_configure(c.rayon_seed, c.pool);
@@ -143,7 +148,8 @@ impl Prop for C13 {
                 proj_doc = Doc { triples: c.doc.triples.iter().map(|(s, p, o)| (match s { LT::Iri(n) => LT::Iri(*n), LT::Bn(n) | LT::Lit(n) | LT::EscLit(n) => LT::Iri(*n + 80_000) }, *p, match o { LT::Bn(n) => LT::Iri(*n + 80_000), LT::EscLit(n) => LT::Lit(*n + 90_000), x => x.clone() })).collect(), seed: c.doc.seed };
                 (&proj_doc, expected(&proj_doc))
             } else { (&c.doc, want_doc.clone()) };
-            let text = render(doc, fmt, c.comments);
+            let want_doc = if *fmt == Fmt::NQuads && c.nq_graphs { expected_nq(doc, true) } else { want_doc };
+            let text = render(doc, fmt, c.comments, c.nq_graphs);
             let lines = text.lines().count();
             if let Err(v) = load(&mut db, fmt, &text, c.shuttle_seed, ctx) { return fin(Some(v)); }
             if c.twice { if let Err(v) = load(&mut db, fmt, &text, c.shuttle_seed ^ 1, ctx) { return fin(Some(v)); } ctx.hit("probe.document_loaded_twice"); }
@@ -158,8 +164,9 @@ impl Prop for C13 {
                 let class = format!("{:?}:{}", fmt, if lost_prior { "prior-content-changed" } else if !missing.is_empty() && extra.is_empty() { "triples-missing" } else if missing.is_empty() { "foreign-triples" } else { "triples-differ" });
                 return fin(Some(Violation::new(&class, format!("loading a {}-line {:?} document ({} distinct triples) into a store with {} quads (dictionary pre-filled with {} extra terms, pool {}, cpus {}) leaves {} quads, expected {}; missing e.g. {:?}; unexpected e.g. {:?}", lines, fmt, want_doc.len(), before.len(), c.prior_terms, c.pool, c.cpus, after.len(), want.len(), missing, extra))));
             }
-            if graphs_after != graphs_before { return fin(Some(Violation::new(&format!("{:?}:graph-catalog-changed", fmt), format!("loading changed the named graphs from {:?} to {:?}", graphs_before, graphs_after)))); }
-            if std::ptr::eq(doc, &c.doc) { per_format.push((fmt.clone(), after.difference(&before).cloned().collect())); }
+            let graphs_want: BTreeSet<String> = graphs_before.iter().cloned().chain(want_doc.iter().filter_map(|q| q.3.clone())).collect();
+            if graphs_after != graphs_want { return fin(Some(Violation::new(&format!("{:?}:graph-catalog-changed", fmt), format!("loading changed the named graphs from {:?} to {:?}, expected {:?}", graphs_before, graphs_after, graphs_want)))); }
+            if std::ptr::eq(doc, &c.doc) && !(*fmt == Fmt::NQuads && c.nq_graphs) { per_format.push((fmt.clone(), after.difference(&before).cloned().collect())); }
         }
         // the same triples written in different formats load identically (implied by the per-format check; kept as its own clause)
         for w in per_format.windows(2) { let (a, b) = (&w[0], &w[1]); let (xa, xb): (BTreeSet<&Q>, BTreeSet<&Q>) = (a.1.iter().filter(|q| want_doc.contains(*q)).collect(), b.1.iter().filter(|q| want_doc.contains(*q)).collect()); if xa != xb && c.prior.is_empty() { return fin(Some(Violation::new("formats-disagree", format!("{:?} and {:?} of the same document load different triples", a.0, b.0)))); } }
@@ -177,6 +184,7 @@ impl Prop for C13 {
         if c.twice { out.push(LoadCase { twice: false, ..c.clone() }); }
         if c.comments { out.push(LoadCase { comments: false, ..c.clone() }); }
         if c.n3_literals { out.push(LoadCase { n3_literals: false, ..c.clone() }); }
+        if c.nq_graphs { out.push(LoadCase { nq_graphs: false, ..c.clone() }); }
         if c.pool != 1 { out.push(LoadCase { pool: 1, rayon_seed: 0, ..c.clone() }); }
         if c.cpus != 1 { out.push(LoadCase { cpus: 1, ..c.clone() }); }
         // simplify terms
